@@ -863,6 +863,9 @@ Proof.
     + cbn [skipn firstn app Nat.add]. split; [destruct (string_body (b :: r)); reflexivity|]. intros c'. destruct (decode_content c'); reflexivity.
 Qed.
 
+Lemma firstn_plus : forall {A} a b (l : list A), firstn (a + b) l = firstn a l ++ firstn b (skipn a l).
+Proof. intros A a. induction a as [|a IH]; intros b [|x l]; cbn; auto; [destruct b; reflexivity|]. rewrite IH. reflexivity. Qed.
+
 Lemma obs_done : forall o p dst, obs o = ObsDone p None [] dst false -> exists s, o = ODone p None s /\ s_dst s = dst.
 Proof. intros [p' e s|k|] p dst H; cbn in H; try discriminate. inversion H; subst. eauto. Qed.
 
@@ -906,10 +909,9 @@ Proof.
       rewrite BC in DS.
       rewrite (string_body_pos _ k SB) in *. cbn [pred] in *.
       replace (S (n + S (pred k)) - 2)%nat with (n + pred k)%nat by lia. cbn [skipn].
-      assert (FN : firstn (n + pred k) body = firstn n body ++ firstn (pred k) (c :: rest)).
-      { rewrite <- K. clear. revert body. induction n as [|n IH]; intros [|x body]; cbn; auto; [destruct (pred k); reflexivity|].
-        rewrite IH. reflexivity. }
-      rewrite FN, PP2, D. cbn [option_map fst snd]. rewrite DS, <- app_assoc. do 2 f_equal. lia.
+      assert (FN : firstn (n + pred k) body = firstn n body ++ firstn (pred k) (c :: rest))
+        by (rewrite firstn_plus, K; reflexivity).
+      rewrite FN, PP2, D. cbn [option_map fst snd]. rewrite DS, <- app_assoc. repeat f_equal. lia.
     + destruct A as (p & e & s & ->). eauto.
 Qed.
 
